@@ -22,8 +22,8 @@ Definition cert_witness_creds (c : cert) : list cred :=
   match c_kind c with
   | 0 => []                                             (* legacy stake registration: no witness *)
   | 1 | 2 => [c_cred c]                                 (* legacy deregistration, stake delegation *)
-  | 3 => c_cred c :: map CK (c_keys c)                  (* pool registration: operator and all owners *)
-  | 4 => [c_cred c]                                     (* pool retirement: operator *)
+  | 3 => map CK (cred_key (c_cred c) ++ c_keys c)       (* pool registration: operator and all owners (key hashes) *)
+  | 4 => map CK (cred_key (c_cred c))                   (* pool retirement: operator (a key hash) *)
   | 5 => map CK (firstn 1 (c_keys c))                   (* genesis delegation: the GENESIS key *)
   | 6 => []                                             (* MIR: genesis quorum, not in witsVKeyNeeded *)
   | 7 | 8 => [c_cred c]                                 (* reg_cert / unreg_cert with explicit amount *)
@@ -207,10 +207,16 @@ Record obs : Type := {
 Definition size_clause (o : obs) : bool :=
   (o_signed o <=? o_predicted o) && (o_predicted o <? o_signed o + vkey_witness_size).
 
+(* known class 3: a genesis key delegation whose delegate hash (counted by the builder) and genesis hash
+   (the key that has to sign) do not overlap with the other signers in the same way *)
+Definition known_genesis (t : tx_ops) : bool :=
+  negb (length (needed_vkeys_gen true true true false t) =? length (needed_vkeys_gen true true true true t))%nat.
+
 Inductive verdict : Type := Holds | NA | Fails (class : N).
 (* known-finding classes (narrow, decidable on the case):
    1  an outpoint is added again with a different owner (the builder keeps counting the first owner's key)
-   2  one script is supplied inline by one item and by reference by another (it ends up available twice) *)
+   2  one script is supplied inline by one item and by reference by another (it ends up available twice)
+   3  genesis key delegation: the builder counts the delegate hash, the genesis key signs ([known_genesis]) *)
 Definition judge (t : tx_ops) (o : obs) : verdict :=
   if negb (wits_match t) then NA
   else
@@ -220,6 +226,7 @@ Definition judge (t : tx_ops) (o : obs) : verdict :=
     let once_ok := scripts_not_twice t (o_emitted o) || negb (collateral_plain t) in
     if size_ok && avail_ok && once_ok then Holds
     else if negb consistent then Fails 1
+    else if avail_ok && once_ok && known_genesis t then Fails 3
     else if size_ok && avail_ok && negb (no_mixed_supply t) then Fails 2
     else Fails 0.
 
